@@ -168,6 +168,18 @@ def nd_binop(I, st, op, a, b):
 
 def nd_compare(I, st, op, a, b):
     M = _M()
+    if (isinstance(a, M.Inf) or isinstance(b, M.Inf)) and op in ("Lt", "LtE", "Gt", "GtE"):
+        # array against float("inf"): elementwise, every (finite, A1) element is strictly between -inf and +inf
+        arr = b if isinstance(a, M.Inf) else a
+        sh, d = asnd(I, st, arr)
+        out = []
+        for x in d:
+            outs = list(M.compare(I, st, op, a if isinstance(a, M.Inf) else x, b if isinstance(b, M.Inf) else x))
+            if len(outs) != 1 or isinstance(outs[0][1], Exc):
+                raise Unsupported("array comparison with inf")
+            out.append(outs[0][1])
+        yield st, st.alloc(NdE(sh, out))
+        return
     sa, da = asnd(I, st, a)
     sb, db = asnd(I, st, b)
     try:
